@@ -293,21 +293,29 @@ func c13Run(w *run.Worker) {
 		raiseC := func() *rt.Node { return rt.Call("p", rt.Bin("/", I(1), Id("z"))) }
 		for _, ev := range []func() *rt.Node{exitC, raiseC} {
 			for pos := 0; pos <= 3; pos++ {
-				for _, withPost := range []bool{false, true} {
+				// post clause: none / an assignment / a statement whose effect is visible (trace, point, a used script)
+				for postKind := 0; postKind < 5; postKind++ {
 					for _, viaUse := range []bool{false, true} {
 						if !w.Take() {
 							continue
 						}
 						body := []*rt.Node{rt.Call("add_key", Id("k"), Id("x")), rt.Call("p", I(5), Id("x"))}
-						if !withPost {
+						if postKind != 1 {
 							body = append(body, rt.Assign("=", Id("x"), rt.Bin("+", Id("x"), I(1))))
 						} else {
 							body = append(body, rt.Call("p", I(7)))
 						}
 						body = append(body[:pos], append([]*rt.Node{ev()}, body[pos:]...)...)
 						var post *rt.Node
-						if withPost {
+						switch postKind {
+						case 1:
 							post = rt.Assign("=", Id("x"), rt.Bin("+", Id("x"), I(1)))
+						case 2:
+							post = rt.Call("p", I(4), Id("x"))
+						case 3:
+							post = rt.Call("add_key", Id("steps"), Id("x"))
+						case 4:
+							post = rt.Call("use", rt.Str("c.p"))
 						}
 						loop := []*rt.Node{rt.Assign("=", Id("x"), I(0)), rt.For(nil, rt.Bin("<", Id("x"), I(3)), post, rt.Block(body...)), rt.Call("p", I(6))}
 						scripts := map[string][]*rt.Node{"b.p": trivial(), "c.p": trivial()}
@@ -454,7 +462,7 @@ func init() {
 		ID:    "C13",
 		Level: "model_checking",
 		Rule: "scripts a.p (uses b.p, c.p), b.p (uses c.p), c.p: every body of total size <=3 / <=2 / <=1 statements (thorough 3/3/2) over {x=K, p(K,x,k), add_key(k,x), exit(), raise, use(child)} each optionally inside `if true {}` / `for i in [1,2] {}` / the else branch of `if true {} else {}` (not taken) / of `if false {} else {}` (taken), " +
-			"same variable and key names on every side, followed by a final probe; all reachable combinations; plus exit()/raise in each clause and at every body position of a three-clause for (with and without post clause), directly and through use(); pure forwarder scripts (whole body = one use()); " +
+			"same variable and key names on every side, followed by a final probe; all reachable combinations; plus exit()/raise in each clause and at every body position of a three-clause for (post clause absent, an assignment, a probe, add_key, use()), directly and through use(); pure forwarder scripts (whole body = one use()); " +
 			"oracle: probe trace, final point, error flag equal the reference (fresh scope per callee, shared point, exit local); on errors the position chain = failing statement, then every use site outward",
 		Assumptions: []string{"bodies of scripts that are not reachable are replaced by a trivial body (they cannot influence the run)"},
 		Run:            c13Run,
